@@ -203,7 +203,7 @@ package codegen
 //
 //@ func (*Backend).Reset
 //@   mode bv
-//@   tags C12
+//@   tags C12 C01 C02
 //@   requires [recv] b != nil
 //@   reset b keep builder options ib.arena requestedVersion
 //@   ensures [configured-version-restored] b.options.Version == b.requestedVersion && b.requestedVersion == old(b.requestedVersion)
@@ -345,7 +345,7 @@ package codegen
 // stops the scan on (mutually) recursive call graphs.
 //@ func (*Backend).collectGlobalVarsFromStatements
 //@   mode bv
-//@   tags C02 C17 C15 C10
+//@   tags C02 C17 C15 C10 C01
 //@   ghostcall collectGlobalVarsFromStatements visitedBlock
 //@   traverse stepmark 1 stmts ir.Block visitedBlock($)
 //@   at (*Backend).collectGlobalVarsFromFunction assert [marked-before-descent] has(visitedFuncs, s.Function) && visitedFuncs[s.Function]
